@@ -22,12 +22,12 @@ CLAIMS = {
        "match_value (Ok(true) / Ok(false) / NotComparable classification, operands in order), CommonOperator::compare (every left x right "
        "pair compared once, in order, with the operator's comparator) and the query traversal step by step: accumulate (`[*]`/`*` over a "
        "list: empty -> unresolved, else continue at the next position with every element in order), retrieve_index (all i32: element |i| "
-       "iff |i| < len), map_resolved, the filter on a map value, and the dispatcher arm by arm (this, [*], *, [n], .key, [filter] on list) "
-       "- each against an arbitrary result of the continuation.",
+       "iff |i| < len), map_resolved, the filter on a map value, and the dispatcher arm by arm (this, [*] and * on list / map / scalar incl. the per-entry continuations that capture a named key, [n], "
+       ".key, [filter] on list) - each against an arbitrary result of the continuation.",
   note="Also on MIR: the variable head of a query (resolved through the scope, each value continued at the next position), EqOperation / "
        "InOperation operand roles (a left value is always paired with a right value, by compare_eq), contained_in's five cases, and the "
-       "rule-status rule `rule referenced by name = its RuleCheck status`. NOT covered: the parser, the traversal arms for a variable key "
-       "/ map `*` / `keys` filters and the recursion as a whole (each step is decided against an arbitrary result of the next), the "
+       "rule-status rule `rule referenced by name = its RuleCheck status`. NOT covered: the parser, the traversal arms for a variable key, "
+       "filters on a map and `keys` filters, and the recursion as a whole (each step is decided against an arbitrary result of the next), the "
        "literal-vs-query special cases and list flattening of EqOperation / InOperation, functions inside clauses. The Kani evaluation context "
        "is a harness stub that returns planted query results; the MIR checks model every callee by a symbolic result and keep loops to "
        "<= 2 iterations (longer selections are cut and counted in the evidence).",
